@@ -590,6 +590,10 @@ func overlongIndex(i int) bool { return i >= 2 && i%overEvery == overPhase }
 // top) of over-long lines; the first is just over the 64 KiB limit.
 var overLens = []int{maxLine + 1, 70 << 10, 100 << 10, 128<<10 + 1, 200 << 10, 300 << 10}
 
+// hugeLens: lines beyond 1 MiB and its multiples (a tool embedded as one line
+// of base64), where readers with a larger bounded buffer stop.
+var hugeLens = []int{1<<20 + 1, 1<<20 + 4096, 2<<20 + 1, 3 << 20, 4<<20 + 1}
+
 // blobPrefixes start an over-long NON-TABDOC line: comments (so the whole
 // payload can still be sourced), two of them near misses of the tag.
 var blobPrefixes = []string{
@@ -707,7 +711,12 @@ func genPayload(rng *rand.Rand, i int) payload {
 			}
 			return g.rng.IntN(last + 1)
 		}
-		olen := func() int { return overLens[g.rng.IntN(len(overLens))] }
+		olen := func() int {
+			if (i/overEvery)%2 == 1 && g.rng.IntN(2) == 0 {
+				return hugeLens[g.rng.IntN(len(hugeLens))]
+			}
+			return overLens[g.rng.IntN(len(overLens))]
+		}
 		doc := func() string {
 			g.classes["overlong-tagged-line"]++
 			return tag + g.spaces(0) + g.name() + g.spaces(1) + g.long(olen())
@@ -1275,6 +1284,14 @@ func (c *checker) payload(i int) {
 	if overTagged+overUntagged > 0 {
 		r.Count("payloads_with_line_over_64k", 1)
 		r.Count("lines_over_64k", int64(overTagged+overUntagged))
+		for _, l := range strings.Split(p.text, "\n") {
+			if len(l) > 1<<20 {
+				r.Count("lines_over_1m", 1)
+				if rowsAfterLong > 0 {
+					r.Count("lines_over_1m_in_payloads_with_rows_after_a_long_line", 1)
+				}
+			}
+		}
 		if overTagged > 0 {
 			r.Count("payloads_with_tabdoc_line_over_64k", 1)
 		}
@@ -1400,7 +1417,7 @@ func (c *checker) probe() {
 
 // Run is the check.
 func Run(r *mon.Run) {
-	r.Rule = "cases: payload i is generated from Rng(payload,i): 1-40 '# TABDOC:' lines (payloads 0 and 1: every fragment of the pool once as description and once as name) interleaved with comment/near-miss lines; texts are assembled from a pool of quote breakers, command substitutions, separators/redirections to canary paths, expansions, control bytes, invalid UTF-8, Unicode whitespace, random bytes (no LF, no NUL), duplicates (exact and re-spaced), prefix extensions, empty texts, lines up to 64 KiB; every 9th payload (i%9==4) additionally carries 1-4 lines LONGER than 64 KiB (64 KiB+1 ... 300 KiB): untagged comment/near-miss blob lines and/or tagged lines whose description is that long, placed before some tagged lines (reference rows include the lines after the long one), 4 of 5 of them generated in fidelity mode; 60% of the payloads are generated free of TAB/VT/FF/0xFF and of non-space whitespace at name/description edges (row fidelity asserted, decided by a predicate on the final payload), the others are unrestricted (quote-safety only). Every payload: GenFuncList(payload) sourced alone under dash, bash and bash --posix with echo replaced by a recording function (NUL-framed; every 8th payload od-hex), cwd a fresh empty directory, PATH a stub directory; every 4th payload additionally through Converter.From (AddListFunction) on a .sh file, whole output sourced. distinct_nontrivial = distinct sets of TABDOC texts (hash) having at least one non-blank text"
+	r.Rule = "cases: payload i is generated from Rng(payload,i): 1-40 '# TABDOC:' lines (payloads 0 and 1: every fragment of the pool once as description and once as name) interleaved with comment/near-miss lines; texts are assembled from a pool of quote breakers, command substitutions, separators/redirections to canary paths, expansions, control bytes, invalid UTF-8, Unicode whitespace, random bytes (no LF, no NUL), duplicates (exact and re-spaced), prefix extensions, empty texts, lines up to 64 KiB; every 9th payload (i%9==4) additionally carries 1-4 lines LONGER than 64 KiB (64 KiB+1 ... 300 KiB; in every second such payload half of them 1 MiB+1 ... 4 MiB+1): untagged comment/near-miss blob lines and/or tagged lines whose description is that long, placed before some tagged lines (reference rows include the lines after the long one), 4 of 5 of them generated in fidelity mode; 60% of the payloads are generated free of TAB/VT/FF/0xFF and of non-space whitespace at name/description edges (row fidelity asserted, decided by a predicate on the final payload), the others are unrestricted (quote-safety only). Every payload: GenFuncList(payload) sourced alone under dash, bash and bash --posix with echo replaced by a recording function (NUL-framed; every 8th payload od-hex), cwd a fresh empty directory, PATH a stub directory; every 4th payload additionally through Converter.From (AddListFunction) on a .sh file, whole output sourced. distinct_nontrivial = distinct sets of TABDOC texts (hash) having at least one non-blank text"
 	r.Assumptions = []string{
 		"dash 0.5.12 and bash 5.2 (normal and --posix) stand for 'a POSIX shell'; LC_ALL=C",
 		"the property ends where the word is handed to echo: what a real echo does with backslashes or -n is not observed",
@@ -1469,6 +1486,7 @@ func Run(r *mon.Run) {
 	r.Floor("invalid_utf8_payloads", int64(n/10))
 	r.Floor("long_line_payloads", 1)
 	r.Floor("payloads_with_line_over_64k", int64(n/10))
+	r.Floor("lines_over_1m_in_payloads_with_rows_after_a_long_line", int64(n/60))
 	r.Floor("payloads_with_tabdoc_line_over_64k", int64(n/25))
 	r.Floor("payloads_with_untagged_line_over_64k", int64(n/25))
 	r.Floor("fidelity_payloads_with_line_over_64k", int64(n/15))
